@@ -56,7 +56,8 @@ type Case struct {
 	Limit       int      `json:"limit"`       // receive limit (upload chunk size); 0 = default
 	FinalCode   int      `json:"final_code"`
 	FinalMsg    string   `json:"final_msg"`
-	WSFrag      int      `json:"ws_frag"` // WebSocket: messages longer than this travel as RFC 6455 fragments of this size (0 = one frame each)
+	WSReason    string   `json:"ws_reason"` // WebSocket: reason text of the client's normal-closure (1000) frame
+	WSFrag      int      `json:"ws_frag"`   // WebSocket: messages longer than this travel as RFC 6455 fragments of this size (0 = one frame each)
 }
 
 var (
